@@ -405,6 +405,7 @@ func run(c *runner.Ctx) {
 		spuriousMisses(c, d, all, expect, 3)
 		lateRegistration(c, d)
 		sharedRuleMap(c, d)
+		blanksInTags(c, d)
 	}
 }
 
@@ -512,6 +513,90 @@ func manyTagNames(c *runner.Ctx, d *deleg) {
 		}
 		c.Done(true, 2*n)
 		c.Outcome("ok")
+	}
+}
+
+// Tags written with blanks around the rule separator (and at the ends). Whatever the library makes of such a tag, it
+// makes the same of it on every call: the reference for each call is its result on the always-miss configuration as
+// the first call of a process-fresh type, and every 3-call history on every configuration must reproduce it.
+type B1 struct {
+	F string `a:"required|a-B1F , to=1~2|a-B1F2" b:" to=1~5|b-B1F ,required|b-B1Fr "`
+	G int    `a:"le=9|a-B1G, ge=7|a-B1G2" b:"to=1~2|b-B1G"`
+}
+
+type B2 struct {
+	K string `a:" required|a-B2K ,to=3~4|a-B2K2 " b:"to=1~2|b-B2K , required|b-B2Kr"`
+	N int    `a:"ge=100|a-B2N ,\tle=3|a-B2N2" b:"required|b-B2N , ge=50|b-B2N2"`
+	M string `a:"to=7~9|a-B2M , required" b:" to=7~9|b-B2M"`
+}
+
+type B3 struct {
+	Z string `a:"eq=3|a-B3Z, in=(x/y)|a-B3Z2 " b:"required|b-B3Z,  to=1~1|b-B3Z2"`
+	B *B1    `a:"exist , required|a-B3B" b:" exist"`
+}
+
+func blanksInTags(c *runner.Ctx, d *deleg) {
+	c.Space(c.Mode + ":blanks-around-the-rule-separator")
+	vals := []func() interface{}{
+		func() interface{} { return &B1{F: "abc", G: 12} },
+		func() interface{} { return &B2{K: "", N: 5, M: "abc"} },
+		func() interface{} { return &B3{Z: "ab", B: &B1{F: "", G: 8}} },
+	}
+	type bc struct {
+		ty  int
+		tag string
+	}
+	var all []bc
+	for ty := range vals {
+		for _, tag := range []string{"a", "b"} {
+			all = append(all, bc{ty, tag})
+		}
+	}
+	runOne := func(b bc) (string, bool, string, string) {
+		var err error
+		pan, msg, site := runner.Guard(func() { err = valid.ValidateStruct(vals[b.ty](), b.tag) })
+		if err != nil {
+			return err.Error(), pan, msg, site
+		}
+		return "", pan, msg, site
+	}
+	d.inner = missCache{}
+	ref := map[bc]string{}
+	for _, b := range all {
+		r, pan, msg, site := runOne(b)
+		if pan {
+			c.Violation("panic@"+site, map[string]interface{}{"call": fmt.Sprintf("B%d/%s", b.ty+1, b.tag), "panic": msg})
+			return
+		}
+		ref[b] = r
+	}
+	for _, cf := range cfgs {
+		for i := range all {
+			for j := range all {
+				for k := range all {
+					if !c.Take() {
+						continue
+					}
+					d.inner = cf.mk()
+					seq := []bc{all[i], all[j], all[k], all[i]}
+					for step, b := range seq {
+						got, pan, msg, site := runOne(b)
+						det := map[string]interface{}{"config": cf.name, "history": fmt.Sprint(seq[:step+1]), "call": fmt.Sprintf("B%d/%s", b.ty+1, b.tag), "result_on_a_cache_that_never_holds_anything": ref[b], "actual": got}
+						if pan {
+							det["panic"] = msg
+							c.Violation("panic@"+site, det)
+							break
+						}
+						if got != ref[b] {
+							c.Violation("blanks-in-tags/result-depends-on-cache-history", det)
+							break
+						}
+					}
+					c.Done(true, 4)
+					c.Outcome("ok")
+				}
+			}
+		}
 	}
 }
 
